@@ -480,7 +480,12 @@ def workload(tier, rng, shard, nshards, work):
             elif r < 0.95:
                 call(audio.readFramesAtTimes, af, lst or [(0.0, n / rate / 2)], [(0.0, n / rate / 3)], rep)
             else:
-                call(audio.readFramesAtTimes, af, [(0.0, n / rate + rng.choice([1 / rate, 0.5]))], None, rep)
+                over = rng.choice([1 / rate, 0.5, 0.45 / rate, 0.1 / rate, 1e-9, math.ulp(n / rate)])  # whole samples, and less than half of one
+                start = rng.choice([0.0, n / rate / 2])
+                if rng.random() < 0.5:
+                    call(audio.readFramesAtTimes, af, [(start, n / rate + over)], None, rep)
+                else:
+                    call(audio.readFramesAtTimes, af, None, [(start, n / rate + over)], rep)
             if rng.random() < 0.15:
                 call(audio.readFramesAtTimes, af, None, rng.choice([None, []]), rep)
             if k % 5 == 0:
